@@ -5,7 +5,8 @@ from framework import coq_bs, coq_z, coq_N, coq_bool, coq_list
 
 ID = 'C16'
 COQ_IMPORTS = ['C16_Model']
-GENERATORS = ['gen_c16_reserved']
+NO_SHRINK_KEYS = ('via', 'tform', 'c', 'kind')
+GENERATORS = ['gen_c16_reserved', 'gen_c16_ops']
 RULE = ('random FeatureLists / BioBaskets of 0-8 elements drawn from small pools (so that equal elements, equal keys and ties are '
         'frequent; features may lack type/seqid/name/id), every documented filter operator and alias with values of matching and '
         'non-matching kinds, key specs as "a b" strings, tuples, len and None (default order) with and without reverse, nested '
@@ -14,14 +15,29 @@ RULE = ('random FeatureLists / BioBaskets of 0-8 elements drawn from small pools
         'sort (all lists up to length 3 (quick) / 6 (thorough) over 4 elements with 2x2 key values, both directions) and all 256 Latin-1 '
         'code points through lower() and through the key-string split(); '
         '320 (quick) / 3000 (thorough) HISTORIES of 2-6 calls on one collection (repeat calls, option changes, in-place edits between '
-        'calls, mutation of every not-in-place result, shared construction list) and 60/600 attach histories on one basket; a few '
-        'mixed-kind collections (outside the domain); '
+        'calls, mutation of every not-in-place result, shared construction list, read-only touches of ALL or only the FIRST element, '
+        'groupby by Location / LocationTuple objects after set operators) and 60/600 attach histories on one basket (sequences no '
+        'feature is attached to must keep their metadata keys and stay equal to an earlier copy); a few mixed-kind collections '
+        '(outside the domain); '
+        'round 6: 420/5000 get/select cases over feature types that are substrings / prefixes / case variants of one another '
+        '(gene/pseudogene, RNA/mRNA/tRNA/ncRNA, exon/exon_junction, UTR/5\'UTR, CDS/cds, the empty type, None, no type) requested as '
+        'str, tuple and list through FeatureList, BioSeq.fts, BioBasket.fts and the str index seq[\'type\'] (residues compared); '
+        '260/3000 filter cases with str values containing one another, keys present with None vs missing, len conditions, list and '
+        'tuple values, plus the exhaustive operator box (12 operators x 17 condition values x 3 collections = 612 cases); 160/2000 '
+        'cases with values that collide after str() (1 / \'1\', None / \'None\', 0 / \'0\' / \'\') as group keys, ids, condition values '
+        'and as the only difference between elements; 220/3000 sorts with key tuples mixing metadata keys, len, None and callables '
+        '(-len, constant, lower-cased value, value with default), both directions; BioSeq.add_fts as a transport of the default '
+        'sort; .d as a transport of todict; a 91-case corpus of the round-6 witnesses; '
         'non-trivial = distinct case whose result is neither empty nor the unchanged input')
 TRUSTED = ['CPython sorted() is a stable sort (modelled by the proven-stable insertion sort of lib/C16_StableSort.v and compared on '
            'tie-heavy inputs), dict insertion order, list.__contains__, str.lower/str.split/str.rsplit, operator module',
            'modelled: cane._keyfuncs/_groupby/_sorted/_filter (cane.py:13-105); FeatureList.get/select/todict/groupby/sort/filter and '
            'the 12 set-operator methods (fts.py:466-505,632-699,778-830); the BioBasket counterparts, fts setter, add_fts '
            '(seq.py:661-770,1006-1116); Feature.__eq__/__lt__/__len__, LocationTuple.range/__lt__, BioSeq.__eq__/__lt__',
+           'the operator table of the model is regenerated on every run by probing cane._filter with every documented operator name '
+           '(tools/gens/c16.py -> gen/G_c16_ops.v) and pinned by C16_op_table_documented; '
+           'Location / LocationTuple objects as group keys are rendered as text (strand, start:stop,...) on both sides; that this '
+           'rendering is injective is read off, not proved; '
            'Location equality beyond (start, stop) (strand, defect, location meta) and LocationTuple construction are C08; '
            'Meta/Attr mapping behaviour is C18 (keys shadowing mapping methods, open finding F20, are outside wf_C16)']
 ASSUMPTIONS = ['Python str restricted to Latin-1 code points; metadata values restricted to None, int, str',
@@ -35,20 +51,27 @@ MODELLED_FUNCS = {
                           'FeatureList.__ror__', 'FeatureList.__ior__', 'FeatureList.__sub__', 'FeatureList.__rsub__',
                           'FeatureList.__isub__', 'FeatureList.__xor__', 'FeatureList.__rxor__', 'FeatureList.__ixor__',
                           'FeatureList.get', 'FeatureList.select', 'FeatureList.todict', 'FeatureList.groupby',
-                          'FeatureList.sort', 'FeatureList.filter'],
-    'sugar/core/seq.py': ['BioSeq.__eq__', 'BioSeq.__lt__', 'BioSeq.__len__', 'BioSeq.id',
+                          'FeatureList.sort', 'FeatureList.filter', 'FeatureList.d'],
+    'sugar/core/seq.py': ['BioSeq.__eq__', 'BioSeq.__lt__', 'BioSeq.__len__', 'BioSeq.id', 'BioSeq.fts', 'BioSeq.add_fts',
                           'BioBasket.__and__', 'BioBasket.__rand__', 'BioBasket.__iand__', 'BioBasket.__or__',
                           'BioBasket.__ror__', 'BioBasket.__ior__', 'BioBasket.__sub__', 'BioBasket.__rsub__',
                           'BioBasket.__isub__', 'BioBasket.__xor__', 'BioBasket.__rxor__', 'BioBasket.__ixor__',
-                          'BioBasket.fts', 'BioBasket.add_fts', 'BioBasket.todict', 'BioBasket.sort', 'BioBasket.groupby',
+                          'BioBasket.fts', 'BioBasket.add_fts', 'BioBasket.todict', 'BioBasket.d', 'BioBasket.sort', 'BioBasket.groupby',
                           'BioBasket.filter'],
 }
-TYPES = ['CDS', 'cds', 'gene', 'Gene', 'tRNA']
+TYPES = ['CDS', 'cds', 'gene', 'Gene', 'tRNA', 'pseudogene', 'RNA']
 NAMES = ['a', 'b', 'A', 'ab']
 SEQIDS = ['s1', 's2', 'S1']
 IDS = ['x', 'y', 'z']
 SETOPS = ['and', 'or', 'sub', 'xor', 'rand', 'ror', 'rsub', 'rxor', 'iand', 'ior', 'isub', 'ixor']
 FOPS = ['lt', 'le', 'eq', 'ne', 'ge', 'gt', 'max', 'min', 'in', 'lowerin', 'lowereq', 'contains']
+# feature types that are substrings / prefixes / case variants of one another (and the empty type)
+TYPE_FAMILIES = [['gene', 'pseudogene', 'Gene', 'GENE', 'gen'], ['RNA', 'mRNA', 'tRNA', 'ncRNA', 'rna', 'MRNA', 'rRNA'],
+                 ['exon', 'exon_junction', 'Exon', 'ex'], ['UTR', "5'UTR", "3'UTR", 'utr', "5'utr"],
+                 ['CDS', 'cds', 'Cds', 'CDS_motif', 'cd', 'mat_peptide_cds'], ['', 'a', 'ab', 'abc', 'b', 'A', 'bc']]
+SUBNAMES = ['a', 'ab', 'abc', 'b', 'bc', 'A', 'Ab', 'AB', '']
+COLLIDE = [1, '1', None, 'None', 0, '0', '', -1, '-1']          # values that collide after str()
+DATA = 'ACGTTGCAAGGCTTAACCGGATCGATTACAGTC'                      # residues for the index transport of get()
 
 
 # ----------------------------------------------------------------------------- case generation
@@ -119,10 +142,25 @@ def g_list(rng, feat=None, maxn=8, full=None, wild=None, start=0):
     return xs, feat
 
 
+def g_callable(rng):
+    """a callable key out of the closed family the model knows (besides len)"""
+    r = rng.random()
+    if r < 0.25:
+        return {'c': 'neglen'}
+    if r < 0.4:
+        return {'c': 'const'}
+    if r < 0.7:
+        return {'c': 'lower', 'k': rng.choice(['name', 'type', 'name', 'seqid', 'id'])}
+    k = rng.choice(['n', 'name', 'k', 'type'])
+    return {'c': 'getor', 'k': k, 'v': rng.choice([0, 1, -1] if k in ('n', 'k') else ['', 'a', 'zz', 'CDS'])}
+
+
 def g_key(rng, allow_default):
     r = rng.random()
-    if r < 0.15:
+    if r < 0.12:
         return {'c': 'len'}
+    if r < 0.22:
+        return g_callable(rng)
     if r < 0.25 and allow_default:
         return None
     if r < 0.28:
@@ -172,8 +210,160 @@ def g_cond(rng, feat):
 
 def g_targ(rng):
     if rng.random() < 0.55:
-        return rng.choice(['cds', 'CDS', 'Gene', 'gene', 'trna', 'x', ''])
-    return [rng.choice(['cds', 'CDS', 'GENE', 'tRNA', 'x']) for _ in range(rng.randrange(0, 3))]
+        return rng.choice(['cds', 'CDS', 'Gene', 'gene', 'trna', 'x', '', 'pseudogene', 'rna', 'PseudoGene', 'ene'])
+    return [rng.choice(['cds', 'CDS', 'GENE', 'tRNA', 'x', 'pseudogene', 'RNA', 'rna']) for _ in range(rng.randrange(0, 3))]
+
+
+def g_typed_feat(rng, fam, i):
+    """a feature whose type comes from one substring family (or is None / absent), locations inside DATA"""
+    r = rng.random()
+    m = []
+    if r < 0.8:
+        m.append(['type', rng.choice(fam)])
+    elif r < 0.9:
+        m.append(['type', None])
+    if rng.random() < 0.5:
+        m.append(['seqid', rng.choice(['s1', 's2'])])
+    if rng.random() < 0.4:
+        m.append(['name', rng.choice(SUBNAMES)])
+    rng.shuffle(m)
+    locs = []
+    for _ in range(rng.choice([1, 1, 1, 2])):
+        a = rng.randrange(0, 24)
+        locs.append([a, a + rng.randrange(1, 9)])
+    e = _with_locs({'f': True, 'd': '', 'm': m}, locs, rng.random() < 0.2)
+    e['_i'] = i
+    return e
+
+
+def _recase(rng, t):
+    return rng.choice([t, t, t.lower(), t.upper(), t.capitalize(), t.swapcase()])
+
+
+def g_getselect(rng):
+    """get/select over types that contain one another; the request as str, tuple or list; several transports"""
+    fam = rng.choice(TYPE_FAMILIES)
+    if rng.random() < 0.15:
+        fam = fam + rng.choice(TYPE_FAMILIES)
+    xs = [g_typed_feat(rng, fam, i) for i in range(rng.choice([1, 2, 3, 3, 4, 5, 6]))]
+    present = [dict(map(tuple, e['m'])).get('type') for e in xs]
+    present = [t for t in present if isinstance(t, str)]
+    r = rng.random()
+    if r < 0.45:                         # a str request: a family member, preferably one that a LATER feature carries
+        t = _recase(rng, rng.choice(present[1:] or present or fam) if rng.random() < 0.7 else rng.choice(fam + ['x', '']))
+    else:                                # several requested types (order of the request must not matter, only list order)
+        n = rng.choice([0, 1, 1, 2, 2, 3])
+        t = [_recase(rng, rng.choice((present if rng.random() < 0.5 and present else fam) + ['x'])) for _ in range(n)]
+        if rng.random() < 0.3:
+            t.reverse()
+    op = rng.choice(['get', 'select'])
+    via = rng.choice(['fl', 'fl', 'seqfts', 'basketfts'] + (['index'] * 4 if op == 'get' and isinstance(t, str) else []))
+    c = {'_op': op, '_recv': 'fl', 'xs': xs, 't': t, 'via': via}
+    if not isinstance(t, str):
+        c['tform'] = rng.choice(['tuple', 'list'])
+    if via == 'basketfts':
+        c['cut'] = rng.randrange(0, len(xs) + 1)
+    return c
+
+
+def g_sub_elem(rng, feat, full, fam=None):
+    """elements whose str values are substrings / prefixes of one another; keys present with value None vs missing"""
+    fam = fam or rng.choice(TYPE_FAMILIES)
+    m = [] if feat else [['id', rng.choice(IDS + SUBNAMES)]]
+    for key, pool in (('name', SUBNAMES), ('type', fam), ('n', [0, 1, 2, 3])):
+        r = rng.random()
+        if full or r < 0.6:
+            m.append([key, rng.choice(pool)])
+        elif r < 0.8:
+            m.append([key, None])
+    rng.shuffle(m)
+    if not feat:
+        return {'f': False, 'd': ''.join(rng.choice('ACGT') for _ in range(rng.randrange(0, 5))), 'locs': [], 'm': m}
+    a = rng.randrange(0, 6)
+    return _with_locs({'f': True, 'd': '', 'm': m}, [[a, a + rng.randrange(1, 5)]], rng.random() < 0.2)
+
+
+def g_cond_sub(rng, full, fam):
+    key = rng.choice(['name', 'type'])
+    strs = SUBNAMES if key == 'name' else fam
+    r = rng.random()
+    if r < 0.12:                # None as the value / inside the value: present-with-None and missing read alike
+        return [key + '_' + rng.choice(['eq', 'ne']), None]
+    if r < 0.22:
+        return [key + '_in', {'l': rng.sample(strs + [None], rng.randrange(0, 4)), 'tup': rng.random() < 0.5}]
+    if r < 0.38 and full:       # str in str: containment (not prefix, not equality), the container is NOT lower-cased
+        cont = rng.choice(strs + ['abcab', 'xabx', 'pseudogenes', 'mrna trna', 'mRNA tRNA', 'xAbx', ' '.join(rng.sample(strs, 2)),
+                                  ''.join(rng.sample(strs, 2)), 'x' + rng.choice(strs) + 'x', 'x' + rng.choice(strs).lower()])
+        return [key + '_' + rng.choice(['in', 'lowerin']), cont]
+    if r < 0.46 and full:
+        return [key + '_lowerin', {'l': [x.lower() if rng.random() < 0.8 else x for x in rng.sample(strs, rng.randrange(0, 4))],
+                                   'tup': rng.random() < 0.5}]
+    if r < 0.54 and full:
+        return [key + '_lowereq', rng.choice([x.lower() for x in strs] + strs)]
+    if r < 0.64 and full:
+        return [key + '_contains', rng.choice(strs + ['g', 'RNA', 'a'])]
+    if r < 0.74 and full:       # ordering between prefixes ('a' < 'ab' < 'abc' < 'b', upper before lower case)
+        return [key + '_' + rng.choice(['lt', 'le', 'ge', 'gt', 'max', 'min']), rng.choice(strs)]
+    if r < 0.84:                # the callable key len
+        return rng.choice([['len_in', {'l': rng.sample([0, 1, 2, 3, 4, '1', None], rng.randrange(0, 4)), 'tup': rng.random() < 0.5}],
+                           ['len_' + rng.choice(['eq', 'ne', 'lt', 'le', 'ge', 'gt', 'max', 'min']), rng.randrange(0, 5)],
+                           ['len_eq', rng.choice(['1', None])]])
+    if r < 0.92:
+        return ['n_' + rng.choice(['eq', 'ne']), rng.choice([0, 1, '1', None])]
+    return ['n_in', {'l': rng.sample([0, 1, 2, '1', None], rng.randrange(0, 4)), 'tup': rng.random() < 0.5}]
+
+
+def g_collide(rng):
+    """values that look alike after str() (1 / '1', None / 'None', 0 / '0' / '') as group keys, ids, condition values and as
+    the only difference between two elements"""
+    feat = rng.random() < 0.6
+    pool = []
+    for _ in range(rng.choice([2, 3, 4])):
+        m = [['id', rng.choice(COLLIDE)]] if (not feat or rng.random() < 0.6) else []
+        if rng.random() < 0.85:
+            m.append(['n', rng.choice(COLLIDE)])
+        if rng.random() < 0.5:
+            m.append(['k', rng.choice(COLLIDE)])
+        if feat and rng.random() < 0.5:
+            m.append(['seqid', rng.choice(['1', 1, 's1'])])
+        rng.shuffle(m)
+        pool.append(_with_locs({'f': True, 'd': '', 'm': m}, [[0, rng.choice([1, 2])]], False) if feat
+                    else {'f': False, 'd': rng.choice(['', 'A', 'AC']), 'locs': [], 'm': m})
+    xs = [dict(rng.choice(pool)) for _ in range(rng.choice([2, 3, 4, 5, 6]))]
+    for i, x in enumerate(xs):
+        x['_i'] = i
+    recv = 'fl' if feat else 'bb'
+    r = rng.random()
+    if r < 0.4:
+        keys = rng.choice([{'s': 'n'}, {'t': ['n', 'k']}, {'t': ['k', 'n']}, {'s': 'id n'}, {'default': True}, {'one': {'c': 'getor', 'k': 'n', 'v': '1'}},
+                           {'t': [{'c': 'getor', 'k': 'k', 'v': 1}, 'n']}, {'t': ['seqid', 'n']}])
+        return {'_op': 'groupby', '_recv': recv, 'xs': xs, 'keys': keys}
+    if r < 0.55:
+        return {'_op': 'todict', '_recv': recv, 'xs': xs}
+    if r < 0.8:
+        key = rng.choice(['n', 'k', 'id'])
+        v = rng.choice(COLLIDE)
+        c = rng.choice([[key + '_eq', v], [key + '_ne', v], [key + '_in', {'l': rng.sample(COLLIDE, rng.randrange(0, 4)), 'tup': rng.random() < 0.5}]])
+        return {'_op': 'filter', '_recv': recv, 'inplace': rng.random() < 0.3, 'xs': xs, 'conds': [c]}
+    k = rng.randrange(0, len(xs))
+    return {'_op': 'setop', '_recv': recv, 'code': rng.randrange(12), 'a': xs[:k], 'b': xs[k:], 'plain': rng.random() < 0.4}
+
+
+def g_sortmix(rng):
+    """sort with key tuples mixing meta keys and callables, both directions, tie-heavy"""
+    feat = rng.random() < 0.6
+    pool = [g_sub_elem(rng, feat, True) for _ in range(rng.choice([2, 3, 4]))]
+    xs = [dict(rng.choice(pool)) for _ in range(rng.choice([2, 3, 4, 5, 6, 7]))]
+    for i, x in enumerate(xs):
+        x['_i'] = i
+    ks = []
+    for _ in range(rng.choice([1, 2, 2, 3, 3, 4])):
+        r = rng.random()
+        ks.append(rng.choice(['name', 'n', 'type']) if r < 0.45 else {'c': 'len'} if r < 0.55 else None if r < 0.6 and feat
+                  else rng.choice([{'c': 'neglen'}, {'c': 'const'}, {'c': 'lower', 'k': rng.choice(['name', 'type'])},
+                                   {'c': 'getor', 'k': rng.choice(['n', 'q']), 'v': rng.choice([0, 1, 5])}]))
+    keys = {'t': ks} if len(ks) > 1 or rng.random() < 0.5 else {'one': ks[0]} if not isinstance(ks[0], str) else {'s': ks[0]}
+    return {'_op': 'sort', '_recv': 'fl' if feat else 'bb', 'xs': xs, 'keys': keys, 'reverse': rng.random() < 0.6}
 
 
 def box_cases(maxlen):
@@ -189,6 +379,27 @@ def box_cases(maxlen):
                 xs.append(x)
             for rev in (False, True):
                 out.append({'_op': 'sort', '_recv': 'fl', 'xs': xs, 'keys': {'t': ['name', 'n']}, 'reverse': rev})
+    return out
+
+
+def op_box_cases():
+    """every documented operator x a battery of condition values x three collections (all-str values that are substrings,
+    prefixes and case variants of one another; key missing / present with None; ints) - exhaustive, deterministic"""
+    def coll(vals, key='name'):
+        xs = []
+        for i, v in enumerate(vals):
+            m = [['tag', i]] + ([] if v == 'MISSING' else [[key, v]])
+            xs.append({'f': True, 'd': '', 'locs': [[0, 1 + i % 3]], 'm': m, '_i': i})
+        return xs
+    colls = [coll(['a', 'ab', 'AB', 'b', '', 'Ab', 'abc']), coll(['MISSING', None]), coll([1, 2, 0], 'n')]
+    values = ['a', 'ab', 'abc', 'xabx', 'AB', 'xABx', '', None, 1, 2, {'l': ['a']}, {'l': ['ab', None]}, {'l': ['A', 'ab'], 'tup': True},
+              {'l': []}, {'l': [1]}, {'l': [0, 2], 'tup': True}, {'l': ['abc', 'b'], 'tup': True}]
+    out = []
+    for xs in colls:
+        key = 'n' if xs[0]['m'][-1][0] == 'n' else 'name'
+        for kop in FOPS:
+            for v in values:
+                out.append({'_op': 'filter', '_recv': 'fl', 'inplace': False, 'xs': [dict(x) for x in xs], 'conds': [[key + '_' + kop, v]]})
     return out
 
 
@@ -224,7 +435,8 @@ def g_cond_safe(rng, feat):
 
 
 def g_keys_safe(rng, feat, sort):
-    pool = ['name', 'n', 'type', {'c': 'len'}, 'seqid' if feat else 'id']
+    pool = ['name', 'n', 'type', {'c': 'len'}, 'seqid' if feat else 'id', {'c': 'neglen'}, {'c': 'getor', 'k': 'n', 'v': 1},
+            {'c': 'lower', 'k': 'name'}, {'c': 'const'}]
     r = rng.random()
     if r < 0.15:
         return {'default': True}
@@ -260,7 +472,11 @@ def g_hist(rng):
         elif r < 0.42:
             steps.append({'s': 'sort', 'keys': g_keys_safe(rng, feat, True), 'reverse': rng.random() < 0.4})
         elif r < 0.52:
-            steps.append({'s': 'groupby', 'keys': g_keys_safe(rng, feat, False)})
+            keys = g_keys_safe(rng, feat, False)
+            if feat and rng.random() < 0.45:        # Location / LocationTuple objects as group keys (hashed, compared with ==)
+                lk = {'c': rng.choice(['loc', 'locs'])}
+                keys = rng.choice([{'one': lk}, {'t': [lk]}, {'t': ['seqid', lk]}, {'t': [lk, 'type']}])
+            steps.append({'s': 'groupby', 'keys': keys})
         elif r < 0.6 and feat:
             steps.append({'s': rng.choice(['select', 'get']), 't': g_targ(rng)})
         elif r < 0.65:
@@ -271,8 +487,8 @@ def g_hist(rng):
                 x['_i'] = nxt
                 nxt += 1
             steps.append({'s': 'setop', 'code': rng.randrange(12), 'b': b, 'plain': rng.random() < 0.4})
-        elif r < 0.88:
-            steps.append({'s': 'touch', 'kind': rng.choice(['str', 'repr', 'locmeta', 'loc1meta'])})
+        elif r < 0.885:
+            steps.append({'s': 'touch', 'kind': rng.choice(['str', 'repr', 'locmeta', 'loc1meta', 'locmeta0', 'eq0', 'hash0'])})
         elif r < 0.9:
             steps.append({'s': 'reverse'})
         elif r < 0.94:
@@ -308,7 +524,7 @@ def g_hattach(rng):
 
 
 def gen_cases(rng, tier):
-    cases = box_cases(6 if tier == 'thorough' else 3) + latin1_cases()
+    cases = box_cases(6 if tier == 'thorough' else 3) + latin1_cases() + op_box_cases()
     hrng = __import__('random').Random(rng.random())        # own stream: the single-call cases keep their sequence
     for _ in range(3000 if tier == 'thorough' else 320):
         cases.append(g_hist(hrng))
@@ -358,7 +574,10 @@ def gen_cases(rng, tier):
                     sq[1].append(f)
             cases.append({'_op': 'attach', 'add': True, 'seqs': seqs, 'fs': xs, 'plain': hrng.random() < 0.5})
         else:
-            cases.append({'_op': 'sort', '_recv': 'fl', 'xs': xs, 'keys': keys, 'reverse': hrng.random() < 0.4})
+            c = {'_op': 'sort', '_recv': 'fl', 'xs': xs, 'keys': keys, 'reverse': hrng.random() < 0.4}
+            if hrng.random() < 0.35:        # BioSeq.add_fts: the old features followed by the new ones, in the default order
+                c.update(keys={'default': True}, reverse=False, via='seqadd', cut=hrng.randrange(0, len(xs) + 1), plain=hrng.random() < 0.5)
+            cases.append(c)
     for _ in range(500 if tier == 'thorough' else 50):        # get/select with several requested types, features of several types
         xs, _ = g_list(hrng, feat=True, full=hrng.random() < 0.7, wild=False)
         ts = hrng.sample(['cds', 'CDS', 'gene', 'GENE', 'tRNA', 'trna', 'x'], hrng.choice([2, 2, 3]))
@@ -381,6 +600,28 @@ def gen_cases(rng, tier):
         if hrng.random() < 0.5:
             conds.reverse()
         cases.append({'_op': 'filter', '_recv': 'fl' if feat else 'bb', 'inplace': hrng.random() < 0.3, 'xs': xs, 'conds': conds})
+    wrng = __import__('random').Random(hrng.random())        # round-6 streams (own stream again)
+    for _ in range(5000 if tier == 'thorough' else 420):      # substring families through get/select, every transport
+        cases.append(g_getselect(wrng))
+    for _ in range(3000 if tier == 'thorough' else 260):      # filter: substrings / prefixes, None vs missing, len, in-tuples
+        feat = wrng.random() < 0.6
+        full = wrng.random() < 0.6
+        fam = wrng.choice(TYPE_FAMILIES)
+        pool = [g_sub_elem(wrng, feat, full, fam) for _ in range(wrng.choice([2, 3, 4, 5]))]
+        xs = [dict(wrng.choice(pool)) for _ in range(wrng.choice([1, 2, 3, 4, 5, 6]))]
+        for i, x in enumerate(xs):
+            x['_i'] = i
+        conds, seen = [], set()
+        for _ in range(wrng.choice([1, 1, 1, 2, 2, 3])):
+            c = g_cond_sub(wrng, full, fam)
+            if c[0] not in seen:
+                seen.add(c[0])
+                conds.append(c)
+        cases.append({'_op': 'filter', '_recv': 'fl' if feat else 'bb', 'inplace': wrng.random() < 0.35, 'xs': xs, 'conds': conds})
+    for _ in range(2000 if tier == 'thorough' else 160):
+        cases.append(g_collide(wrng))
+    for _ in range(3000 if tier == 'thorough' else 220):
+        cases.append(g_sortmix(wrng))
     n = 30000 if tier == 'thorough' else 1800
     for _ in range(n):
         r = rng.random()
@@ -407,7 +648,7 @@ def gen_cases(rng, tier):
             cases.append({'_op': rng.choice(['select', 'get']), '_recv': 'fl', 'xs': xs, 't': g_targ(rng)})
         elif r < 0.72:
             xs, feat = g_list(rng)
-            cases.append({'_op': 'todict', '_recv': 'fl' if feat else 'bb', 'xs': xs})
+            cases.append({'_op': 'todict', '_recv': 'fl' if feat else 'bb', 'xs': xs, 'via': rng.choice(['todict', 'd'])})
         elif r < 0.9:
             feat = rng.random() < 0.6
             full = rng.random() < 0.5
@@ -464,6 +705,13 @@ def _touch(objs, kind, cls, ident):
             str(cls(objs))
         elif kind == 'repr':
             repr(cls(objs)), [repr(o) for o in objs]
+        elif kind in ('locmeta0', 'eq0', 'hash0'):          # only the FIRST element is looked at
+            if objs and kind == 'locmeta0' and cls is FeatureList:
+                objs[0].loc.meta
+            elif objs and kind == 'eq0':
+                objs[0] == objs[0].copy(), objs[0] in [objs[-1]]
+            elif objs and cls is FeatureList:
+                hash(objs[0].loc), {objs[0].locs: 1}
         elif kind in ('locmeta', 'loc1meta') and cls is FeatureList:
             for o in objs:
                 if kind == 'locmeta':
@@ -485,7 +733,34 @@ def _touch(objs, kind, cls, ident):
 
 
 def _pykey(k):
-    return len if isinstance(k, dict) else k
+    if not isinstance(k, dict):
+        return k
+    c = k['c']
+    if c == 'len':
+        return len
+    if c == 'neglen':
+        return lambda o: -len(o)
+    if c == 'const':
+        return lambda o: 0
+    if c == 'lower':
+        return lambda o, key=k['k']: o.meta.get(key).lower()
+    if c == 'getor':
+        return lambda o, key=k['k'], v=k['v']: o.meta.get(key, v)
+    if c == 'loc':
+        return lambda o: o.loc
+    if c == 'locs':
+        return lambda o: o.locs
+    raise ValueError(c)
+
+
+def _kjson(k):
+    """a group key as JSON value; Location / LocationTuple keys as text: strand, then start:stop joined by ','"""
+    from sugar.core.fts import Location, LocationTuple
+    if isinstance(k, Location):
+        k = (k,)
+    if isinstance(k, (LocationTuple, tuple)) and k and all(isinstance(l, Location) for l in k):
+        return ('-' if k[0].strand == '-' else '+') + ','.join('%d:%d' % (l.start, l.stop) for l in k)
+    return k
 
 
 def _pykeys(ks):
@@ -500,7 +775,31 @@ def _pykeys(ks):
 
 
 def _val(v):
-    return list(v['l']) if isinstance(v, dict) else v
+    if isinstance(v, dict):
+        return tuple(v['l']) if v.get('tup') else list(v['l'])
+    return v
+
+
+def _transport(case, objs):
+    """the FeatureList a get/select request is sent to: the list itself, the feature list of a sequence, or the joined
+    feature list of a basket (the same Feature objects in the same order in every case)"""
+    import warnings
+    from sugar import BioBasket, BioSeq, FeatureList
+    via = case.get('via', 'fl')
+    with warnings.catch_warnings():
+        warnings.simplefilter('ignore')
+        if via == 'fl':
+            return FeatureList(objs), None
+        if via in ('seqfts', 'index'):
+            s = BioSeq(DATA, id='s1')
+            s.fts = FeatureList(objs)
+            return s.fts, s
+        cut = case.get('cut', 0)
+        s1, s2 = BioSeq(DATA, id='s1'), BioSeq(DATA[::-1], id='s2')
+        s1.fts = FeatureList(objs[:cut])
+        s2.fts = objs[cut:]
+        bk = BioBasket([s1, s2])
+        return bk.fts, bk
 
 
 def _probe_result(r, sentinel):
@@ -535,7 +834,7 @@ def _impl_hist(case):
 
     def render(t):
         if isinstance(t, dict):
-            return [[k, render(v) if isinstance(v, (dict, cls)) else ident.get(id(v), -1)] for k, v in t.items()]
+            return [[_kjson(k), render(v) if isinstance(v, (dict, cls)) else ident.get(id(v), -1)] for k, v in t.items()]
         if t is None:
             return None
         if isinstance(t, cls):
@@ -657,6 +956,28 @@ def _impl_hist(case):
     return out
 
 
+def _held(sq):
+    """the features a sequence holds, read WITHOUT the BioSeq.fts getter (which inserts an empty list into the metadata)"""
+    return list(sq.meta['fts'].data) if 'fts' in sq.meta else []
+
+
+def _attach_probe(bk):
+    return [(sq.copy(), sorted(sq.meta.keys()), _held(sq)) for sq in bk]
+
+
+def _attach_compare(bk, before, what):
+    """a sequence that holds the very same features after basket.fts = ... / add_fts as before was not concerned: it must not
+    have changed at all (same metadata keys, still equal to its earlier copy - the set operators work under that equality)"""
+    for i, (sq, (cp, keys, held)) in enumerate(zip(bk, before)):
+        if [id(o) for o in _held(sq)] != [id(o) for o in held]:
+            continue
+        if sorted(sq.meta.keys()) != keys:
+            return 'meta keys of sequence %d (no feature was attached to it) changed from %r to %r after %s' % (i, keys, sorted(sq.meta.keys()), what)
+        if not (sq == cp) or sq not in [cp]:
+            return 'sequence %d (no feature was attached to it) is no longer equal to its earlier copy after %s' % (i, what)
+    return None
+
+
 def _impl_hattach(case):
     from sugar import BioBasket, BioSeq, FeatureList
     from framework import canon_exc
@@ -682,7 +1003,8 @@ def _impl_hattach(case):
         fs = build_all(st['fs'])
         arg = list(fs) if st['plain'] else FeatureList(fs)
         args.append((arg, ix(fs)))
-        held = [(s.fts, ix(s.fts.data)) for s in bk]        # feature lists held before the call
+        held = [(s.meta['fts'], ix(_held(s))) for s in bk if 'fts' in s.meta]        # feature lists held before the call
+        probe = _attach_probe(bk)
         try:
             if st['add']:
                 bk.add_fts(arg)
@@ -691,15 +1013,19 @@ def _impl_hattach(case):
         except Exception as e:
             out.append(canon_exc(e))
             return out
+        bad = _attach_compare(bk, probe, 'step %d' % n)
+        if bad:
+            out.append({'independence': bad})
+            return out
         for a, snap in args:
             if ix(a if isinstance(a, list) else a.data) != snap:
                 out.append({'independence': 'a feature list passed to the basket changed after step %d' % n})
                 return out
-        for (fl, snap), s in zip(held, bk):
-            if fl is not s.fts and ix(fl.data) != snap:
+        for fl, snap in held:
+            if not any(fl is sq.meta.get('fts') for sq in bk) and ix(fl.data) != snap:
                 out.append({'independence': 'a replaced feature list was modified in step %d' % n})
                 return out
-        out.append([ix(s.fts.data) for s in bk])
+        out.append([ix(_held(s)) for s in bk])
     return out
 
 
@@ -761,12 +1087,41 @@ def impl(case):
             seqs.append(s)
         bk = BioBasket(seqs)
         arg = list(fs) if case['plain'] else FeatureList(fs)
+        probe = _attach_probe(bk)
         if case['add']:
             bk.add_fts(arg)
         else:
             bk.fts = arg
-        return [ix(s.fts.data) for s in bk]
+        bad = _attach_compare(bk, probe, 'attaching')
+        if bad:
+            return {'independence': bad}
+        assert ix(arg if case['plain'] else arg.data) == ix(fs), 'the features handed to the basket were reordered'
+        return [ix(_held(s)) for s in bk]
     objs = build_all(case['xs'])
+    if op in ('select', 'get'):
+        t = case['t']
+        if not isinstance(t, str):
+            t = tuple(t) if case.get('tform') == 'tuple' else list(t)
+        t0 = t if isinstance(t, str) else list(t)
+        obj, owner = _transport(case, objs)
+        assert type(obj) is FeatureList and ix(obj.data) == ix(objs)
+        if case.get('via') == 'index':
+            # seq['<type>'] resolves the str through FeatureList.get (seq.py:_getitem): the residues returned are those of
+            # the feature get() picks; nothing found -> ValueError.  Reported: the features whose own residues equal the answer.
+            try:
+                sub = owner[t]
+            except ValueError:
+                return None
+            return [ident[id(o)] for o in objs if str(owner[o]) == str(sub)]
+        if op == 'select':
+            r = obj.select(t)
+            assert type(r) is FeatureList and r is not obj and ix(obj.data) == ix(objs)
+            res = ix(r.data)
+        else:
+            r = obj.get(t)
+            res = None if r is None else ident[id(r)]
+        assert (t if isinstance(t, str) else list(t)) == t0, 'the requested types were modified'
+        return res
     obj = cls(objs)
     if op == 'filter':
         r = obj.filter(inplace=case['inplace'], **{k: _val(v) for k, v in case['conds']})
@@ -779,6 +1134,18 @@ def impl(case):
             assert ix(obj.data) == res[1], 'receiver shares its list with the result of filter(inplace=False)'
         return res
     if op == 'sort':
+        if case.get('via') == 'seqadd':
+            import warnings
+            from sugar import BioSeq
+            cut = case['cut']
+            with warnings.catch_warnings():
+                warnings.simplefilter('ignore')
+                sq = BioSeq(DATA, id='s1')
+                sq.fts = FeatureList(objs[:cut])
+                new = objs[cut:] if case.get('plain') else FeatureList(objs[cut:])
+                sq.add_fts(new)
+            assert ix(new if case.get('plain') else new.data) == ix(objs[cut:]), 'the features handed to add_fts were reordered'
+            return ix(sq.fts.data)
         r = obj.sort(*_pykeys(case['keys']), reverse=case['reverse'])
         assert r is obj
         return ix(obj.data)
@@ -787,20 +1154,15 @@ def impl(case):
 
         def render(t):
             if isinstance(t, dict):
-                return [[k, render(v)] for k, v in t.items()]
+                return [[_kjson(k), render(v)] for k, v in t.items()]
             assert type(t) is cls
             return ix(t.data)
         assert ix(obj.data) == ix(objs)
         return render(d)
-    if op == 'select':
-        r = obj.select(case['t'])
-        assert type(r) is cls and ix(obj.data) == ix(objs)
-        return ix(r.data)
-    if op == 'get':
-        r = obj.get(case['t'])
-        return None if r is None else ident[id(r)]
     if op == 'todict':
-        return [[k, ident[id(v)]] for k, v in obj.todict().items()]
+        d = obj.d if case.get('via') == 'd' else obj.todict()          # .d: documented alias
+        assert type(d) is dict and ix(obj.data) == ix(objs)
+        return [[k, ident[id(v)]] for k, v in d.items()]
     raise ValueError(op)
 
 
@@ -832,7 +1194,12 @@ def t_key(k):
     if k is None:
         return 'KDefault'
     if isinstance(k, dict):
-        return 'KLen'
+        c = k['c']
+        if c == 'lower':
+            return '(KLowerMeta %s)' % coq_bs(k['k'])
+        if c == 'getor':
+            return '(KMetaOr %s %s)' % (coq_bs(k['k']), t_pv(k['v']))
+        return {'len': 'KLen', 'neglen': 'KNegLen', 'const': 'KConst', 'loc': 'KLoc', 'locs': 'KLocs'}[c]
     return '(KMeta %s)' % coq_bs(k)
 
 
@@ -905,14 +1272,20 @@ def _model_term(case):
     if op == 'filter':
         r = 'RFilter %s %s %s' % (coq_bool(case['inplace']), t_elems(case['xs']),
                                   coq_list(['(%s, %s)' % (coq_bs(k), t_fval(v)) for k, v in case['conds']]))
+    elif op == 'sort' and case.get('via') == 'seqadd':
+        # BioSeq.add_fts = the default sort of old ++ new; reported through the RSort entry point on the same elements
+        cut = case['cut']
+        return ('out (VL [VB (wf_C16 (RSort %s (KsOne KDefault) false)); vidx (m_seq_add_fts %s %s)])'
+                % (t_elems(case['xs']), t_elems(case['xs'][:cut]), t_elems(case['xs'][cut:])))
     elif op == 'sort':
         r = 'RSort %s %s %s' % (t_elems(case['xs']), t_keys(case['keys'], case['_recv'], op), coq_bool(case['reverse']))
     elif op == 'groupby':
         r = 'RGroup %s %s' % (t_elems(case['xs']), t_keys(case['keys'], case['_recv'], op))
-    elif op == 'select':
-        r = 'RSelect %s %s' % (t_elems(case['xs']), t_targ(case['t']))
-    elif op == 'get':
-        r = 'RGet %s %s' % (t_elems(case['xs']), t_targ(case['t']))
+    elif op in ('select', 'get'):
+        xs = t_elems(case['xs'])
+        if case.get('via') == 'basketfts':          # the joined feature lists of the two sequences (BioBasket.fts getter)
+            xs = '(m_basket_fts [%s; %s])' % (t_elems(case['xs'][:case['cut']]), t_elems(case['xs'][case['cut']:]))
+        r = '%s %s %s' % ('RSelect' if op == 'select' else 'RGet', xs, t_targ(case['t']))
     elif op == 'todict':
         r = 'RTodict %s' % t_elems(case['xs'])
     elif op == 'setop':
@@ -929,6 +1302,8 @@ def split_model(case, m):
 
 
 def agree(case, implval, modelval):
+    if case.get('via') == 'index' and isinstance(implval, list):
+        return modelval in implval
     if isinstance(implval, dict) and 'e' in implval and isinstance(modelval, dict) and 'e' in modelval:
         return implval['e'] == modelval['e']
     return implval == modelval
@@ -988,13 +1363,26 @@ def _keyfn(k, xs):
             return lambda e: (0 if same else _meta(e).get('seqid'), min(s for s, _ in e['locs']), max(t for _, t in e['locs']))
         return lambda e: _meta(e).get('id', '')
     if isinstance(k, dict):
-        return _len
+        c = k['c']
+        if c == 'len':
+            return _len
+        if c == 'neglen':
+            return lambda e: -_len(e)
+        if c == 'const':
+            return lambda e: 0
+        if c == 'lower':
+            return lambda e: _meta(e).get(k['k']).lower()
+        if c in ('loc', 'locs'):        # features with equal (first) location(s) and strand share a group
+            return lambda e: ('-' if e.get('minus') else '+') + ','.join('%d:%d' % (a, b) for a, b in (e['locs'][:1] if c == 'loc' else e['locs']))
+        return lambda e: _meta(e).get(k['k'], k['v'])
     return lambda e: _meta(e).get(k)
 
 
 def spec(case, got):
     if isinstance(got, dict) and 'e' in got:
         return 'raised %s inside the domain' % got['e']
+    if isinstance(got, dict) and 'independence' in got:
+        return 'state independence: ' + got['independence']
     op = case['_op']
     if op in ('hist', 'hattach'):
         for n, v in enumerate(got):
@@ -1059,6 +1447,8 @@ def spec(case, got):
         exp = [e['_i'] for e in case['xs'] if isinstance(_meta(e).get('type'), str) and _meta(e)['type'].lower() in ts]
         if op == 'get':
             exp = exp[0] if exp else None
+            if case.get('via') == 'index' and isinstance(got, list):
+                return None if exp in got else 'seq[%r] gave the residues of features %r, the first feature of that type is %r' % (t, got, exp)
         return None if got == exp else '%s gave %r, expected %r' % (op, got, exp)
     if op == 'todict':
         exp = {}
@@ -1170,7 +1560,13 @@ def histkey(case, got):
         hk.append('raises=' + got['e'])
     if op == 'filter':
         hk += ['fop=' + c[0].rsplit('_', 1)[-1] for c in case['conds']] + ['nconds=%d' % len(case['conds'])]
+    if op == 'sort' and case.get('via'):
+        hk.append('via=' + case['via'])
+    if op in ('select', 'get'):
+        hk += ['via=' + case.get('via', 'fl'), 'targ=' + ('str' if isinstance(case['t'], str) else case.get('tform', 'list'))]
     if op in ('sort', 'groupby'):
+        if any(isinstance(k, dict) and k['c'] != 'len' for k in case['keys'].get('t', [case['keys'].get('one')])):
+            hk.append('keys=with-callable')
         hk.append('keys=' + ('default' if 'default' in case['keys'] else 'str' if 's' in case['keys'] else 'one' if 'one' in case['keys']
                              else 'tuple%d' % len(case['keys']['t'])))
     return hk
@@ -1195,7 +1591,12 @@ def python_snippet(case):
             return ''
         if 's' in ks:
             return repr(ks['s'])
-        f = lambda k: 'len' if isinstance(k, dict) else repr(k)
+        def f(k):
+            if not isinstance(k, dict):
+                return repr(k)
+            return {'len': 'len', 'neglen': '(lambda o: -len(o))', 'const': '(lambda o: 0)', 'loc': '(lambda ft: ft.loc)', 'locs': '(lambda ft: ft.locs)',
+                    'lower': '(lambda o: o.meta.get(%r).lower())' % k.get('k'),
+                    'getor': '(lambda o: o.meta.get(%r, %r))' % (k.get('k'), k.get('v'))}[k['c']]
         if 'one' in ks:
             return f(ks['one'])
         return '(' + ''.join(f(k) + ', ' for k in ks['t']) + ')'
@@ -1229,7 +1630,8 @@ def python_snippet(case):
                 continue
             elif k == 'touch':
                 s += {'str': 'str(x)', 'repr': 'repr(x)', 'locmeta': '[f.loc.meta for f in x]',
-                      'loc1meta': '[f.locs[1].meta for f in x if len(f.locs) > 1]'}[st['kind']] + '\n'
+                      'loc1meta': '[f.locs[1].meta for f in x if len(f.locs) > 1]', 'locmeta0': 'x[0].loc.meta',
+                      'eq0': 'x[0] == x[0].copy(); x[0] in [x[-1]]', 'hash0': 'hash(x[0].loc); {x[0].locs: 1}'}[st['kind']] + '\n'
                 continue
             elif k == 'setitem':
                 s += 'x.data[%d] = x.data[%d]\n' % (st['j'], st['i'])
@@ -1271,36 +1673,62 @@ def python_snippet(case):
     s = head + 'x = %s(%s)\n' % (cls, pl(case['xs']))
     if op == 'filter':
         return s + 'print(x.filter(inplace=%r, **%r)); print(x)' % (case['inplace'], {k: _val(v) for k, v in case['conds']})
+    if op == 'sort' and case.get('via') == 'seqadd':
+        return (head + 'seq = BioSeq(%r, id="s1"); seq.fts = FeatureList(%s)\nseq.add_fts(%s); print(seq.fts)'
+                % (DATA, pl(case['xs'][:case['cut']]), pl(case['xs'][case['cut']:])))
     if op == 'sort':
         k = pk(case['keys'])
         return s + 'print(x.sort(%s%sreverse=%r))' % (k, ', ' if k else '', case['reverse'])
     if op == 'groupby':
         return s + 'print(x.groupby(%s))' % pk(case['keys'])
     if op in ('select', 'get'):
-        return s + 'print(x.%s(%r))' % (op, case['t'])
-    return s + 'print(x.todict())'
+        t = case['t'] if isinstance(case['t'], str) else tuple(case['t']) if case.get('tform') == 'tuple' else list(case['t'])
+        via = case.get('via', 'fl')
+        if via == 'fl':
+            return s + 'print(x.%s(%r))' % (op, t)
+        if via in ('seqfts', 'index'):
+            s += 'seq = BioSeq(%r, id="s1"); seq.fts = x\n' % DATA
+            if via == 'index':
+                return s + 'print(seq[%r], [seq[ft] for ft in seq.fts])   # must be the residues of the first feature of that type' % (t,)
+            return s + 'print(seq.fts.%s(%r))' % (op, t)
+        cut = case.get('cut', 0)
+        s += 'a = BioSeq(%r, id="s1"); b = BioSeq(%r, id="s2"); a.fts = x[:%d]; b.fts = x[%d:]\n' % (DATA, DATA[::-1], cut, cut)
+        return s + 'print(BioBasket([a, b]).fts.%s(%r))' % (op, t)
+    return s + ('print(x.d)' if case.get('via') == 'd' else 'print(x.todict())')
 
 
-LEVEL_TEXT = ('Machine-checked Coq theorems (25, all closed) about an executable model of sugar\'s collection helpers, for all lists: '
+LEVEL_TEXT = ('Machine-checked Coq theorems (45, all closed) about an executable model of sugar\'s collection helpers, for all lists: '
               'filter = List.filter of the conjunction of the conditions (order kept, receiver replaced only with inplace; aliases '
-              'max/min/in/lowerin/lowereq); the key-by-key loop of stable sorts equals ONE stable insertion sort by the lexicographic '
-              'order of the key tuple, hence a sorted permutation in which equal key tuples keep input order, also with reverse, '
-              'with the default orders (sequences by id; features by seqid then range) spelled out; groupby returns exactly the nested '
-              'first-occurrence-ordered grouping (spec_tree), groups non-empty and equal to the filters by key path; get/select = '
-              'first/all case-insensitive type matches, total on type-less features; todict binds each id (first-occurrence order) to its '
-              'last element; &,|,-,^ with in-place and reflected forms: membership under element equality (proved to be an equivalence '
-              'relation), order preserving; basket.fts= / add_fts attach by seqid (first sequence with an id wins, unknown or missing '
-              'seqids stay unattached). The model is tied to /repo by differential testing of the public methods on every run, including '
-              'multi-call histories on one object that probe aliasing between receiver, operands and results.')
+              'max/min/in/lowerin/lowereq against the operator table regenerated from the code; order of the conditions irrelevant; in / '
+              'lowerin / contains = equality search in a list or tuple, containment in a str, never prefix or lower-casing of the '
+              'container; a missing key and a key bound to None are indistinguishable); the key-by-key loop of stable sorts equals ONE '
+              'stable insertion sort by the lexicographic order of the key tuple, hence a sorted permutation in which equal key tuples '
+              'keep input order, also with reverse, and that list is UNIQUE (any sorted list whose tie classes keep their input order is '
+              'it); reverse=True = reverse . stable sort . reverse, refuted to be the reversed ascending sort; callables as keys; '
+              'the default orders (sequences by id; features by seqid then range) spelled out; groupby returns exactly the nested '
+              'first-occurrence-ordered grouping (spec_tree), keys compared with == (1 and \'1\' differ), the groups read off in order are a permutation of the input; get/select = first/all features '
+              'whose lower-cased type EQUALS the lower-cased request / is a member of the lower-cased tuple (a type contained in the '
+              'request does not match), total on type-less features; todict binds each id (first-occurrence order) to its last element; '
+              '&,|,-,^ with in-place and reflected forms: membership under element equality (an equivalence relation), order preserving, '
+              'a&a=a, a-a=[], in-place forms leave in the receiver what the plain forms return; basket.fts= / add_fts attach by seqid: '
+              'first sequence with an id wins, attached + unattachable features are a permutation of the given ones, a sequence only '
+              'receives features whose seqid is its id, add_fts = stable default sort of old ++ new. The model is tied to /repo by '
+              'differential testing of the public methods on every run, including multi-call histories on one object that probe '
+              'aliasing between receiver, operands and results.')
 LEVEL_NOTE = ('Trusted: Coq kernel/vm_compute, the correspondence harness, CPython sorted() being a stable sort (modelled by a '
               'proven-stable insertion sort and compared on tie-heavy inputs and an exhaustive box), dict order, str.lower/split/rsplit '
               '(compared on all 256 Latin-1 code points). Modelled rather than verified: cane._keyfuncs/_groupby/_sorted/_filter, '
-              'FeatureList/BioBasket get/select/todict/groupby/sort/filter, set operators, fts setter/add_fts, Feature/BioSeq __eq__/__lt__ '
-              '(MODELLED_FUNCS: 212/212 statements executed in the quick tier; the branches for a LocationTuple or a foreign object as a '
-              'collection element - fts.py:101,209-210,360,370-373, seq.py:258-259 - are reached only by the mixed-kind cases and '
-              'extra_checks, outside wf_C16). Tested only (not expressible in the pure model): object identity / aliasing (in-place forms '
-              'return the receiver, not-in-place results share no list with receiver, operands or earlier results) via the history '
-              'stream. Domain: values None/int/str, key values orderable, one kind of element per collection, metadata keys not shadowing '
-              'mapping methods (F20, list regenerated from dir(Meta)); filter operators outside the 12 documented ones are outside. '
+              'FeatureList/BioBasket get/select/todict/d/groupby/sort/filter, set operators, BioBasket.fts getter and setter, add_fts, '
+              'BioSeq.fts / add_fts, Feature/BioSeq __eq__/__lt__ (MODELLED_FUNCS: every statement executed in the quick tier; the '
+              'branches for a LocationTuple or a foreign object as a collection element - fts.py:101,209-210,360,370-373, '
+              'seq.py:258-259 - are reached only by the mixed-kind cases and extra_checks, outside wf_C16). Callable keys: any callable is '
+              'accepted by the code; the model knows len, None and the closed family the harness hands in (-len, constant, lower-cased '
+              'metadata value, metadata value with default, ft.loc / ft.locs for groupby). Tested only (not expressible in the pure '
+              'model): object identity / aliasing (in-place forms return the receiver, not-in-place results share no list with receiver, '
+              'operands or earlier results), hash/eq consistency of Location keys under histories, sequences not concerned by '
+              'basket.fts= staying untouched (metadata keys, equality with an earlier copy), the str index seq[type] picking the '
+              'residues of the feature get() returns - all via the history / transport streams. Domain: values None/int/str, key values '
+              'orderable, one kind of element per collection, metadata keys not shadowing mapping methods (F20, list regenerated from '
+              'dir(Meta)); filter operators outside the 12 documented ones are outside. '
               'All theorems closed under the global context (no axioms).')
 TECHNIQUE = 'Coq proof over an executable Gallina model + differential correspondence with /repo'
